@@ -23,6 +23,19 @@ EXPECT = {'a': 24, 'r': 16, 'g': 8, 'b': 0}
 def shl_parts(t):
     """flatten a BitOr tree into [(field name, shift)]"""
     t = strip_casts(t)
+    # u32::from_be_bytes([b3, b2, b1, b0]) = b3<<24 | b2<<16 | b1<<8 | b0 (from_le_bytes the other way round)
+    if is_call(t, 'u32::from_be_bytes', 'u32::from_le_bytes', 'num::<impl u32>::from_be_bytes', 'num::<impl u32>::from_le_bytes') and len(t[2]) == 1:
+        arr = strip_all(t[2][0])
+        if arr[0] == 'agg' and len(arr[4]) == 4:
+            shifts = [24, 16, 8, 0] if 'from_be_bytes' in t[1] else [0, 8, 16, 24]
+            out = []
+            for (nm, el), k in zip(arr[4], shifts):
+                root, names = field_path(strip_casts(el))
+                if root != ('param', 1) or len(names) != 1:
+                    return None
+                out.append((names[0], k))
+            return out
+        return None
     if t[0] == 'bin' and t[1] == 'BitOr':
         a = shl_parts(t[2])
         b = shl_parts(t[3])
@@ -47,6 +60,11 @@ def shift_mask(t):
     """(source term, shift) if t = (src >> k) & 0xff"""
     t = strip_casts(t)
     # byte k of p.to_be_bytes() is (p >> (24 - 8k)) & 0xff, of p.to_le_bytes() (p >> 8k) & 0xff
+    if t[0] in ('index', 'cidx'):
+        base = strip_all(t[1])
+        # bytes.map(u32::from): the same bytes, widened
+        if is_call(base, '::map') and len(base[2]) == 2 and strip_all(base[2][1])[0] == 'fn' and str(strip_all(base[2][1])[1]).split('::')[-1] == 'from':
+            t = (t[0], strip_all(base[2][0])) + tuple(t[2:])
     if t[0] in ('index', 'cidx') and is_call(strip_all(t[1]), 'to_be_bytes', 'to_le_bytes') and len(strip_all(t[1])[2]) == 1:
         k = const_val(t[2]) if t[0] == 'index' else t[2]
         c0 = strip_all(t[1])
